@@ -32,5 +32,6 @@ Example tie_C13_pulse :
   /\ Src.h_pulse_sequence_PulseSequence_t = Expected.h_pulse_sequence_PulseSequence_t
   /\ Src.h_pulse_sequence__parse_Hamiltonian = Expected.h_pulse_sequence__parse_Hamiltonian
   /\ Src.h_pulse_sequence__parse_args = Expected.h_pulse_sequence__parse_args
-  /\ Src.h_pulse_sequence_PulseSequence___init__ = Expected.h_pulse_sequence_PulseSequence___init__.
+  /\ Src.h_pulse_sequence_PulseSequence___init__ = Expected.h_pulse_sequence_PulseSequence___init__
+  /\ Src.h_util_integrate = Expected.h_util_integrate.
 Proof. repeat split; reflexivity. Qed.
